@@ -391,6 +391,9 @@ impl Runner {
         }
         self.obs = post;
         self.last = Some((out.clone(), ledger.clone(), preq.clone()));
+        if self.prop == "C17" {
+            oracles::c17::refusal_probe(self, step);
+        }
         // probes on the post-state, in forks
         for p in step.probes.iter() {
             match p {
